@@ -112,7 +112,7 @@ def _cache_fn(ctx):
     return out
 
 
-@rule('CACHE-ACCESS')
+@rule('CACHE-ACCESS', 'CACHE-KEY')
 def rule_cache_access(ctx):
     obs = []
     cg = ctx.crate('codegen')
@@ -150,6 +150,18 @@ def rule_cache_access(ctx):
                            'an entry can be overwritten/removed: repeated calls may see different values'))
         else:
             obs.append(ok('CACHE-ACCESS', inst, 'only get-or-insert (entry().or_insert_with()) and clone on the cache map', fn.loc))
+        # the map key is the caller's key, untransformed
+        senv = H.sym_env(fn)
+        for n in H.calls_in(fn):
+            if n['k'] == 'mcall' and n['method'] in ('entry', 'get', 'insert', 'contains_key') and n['args'] and \
+                    any(x in (n['recv'].get('ty', '') + n['recv'].get('aty', '')) for x in ('BTreeMap', 'HashMap', 'MutexGuard')):
+                kt = ctx.pv.eval(fn, n['args'][0], senv, 0)
+                kinst = '%s/map-key' % short(fn.path)
+                if kt[0] == 'param' and 'Path' in (fn.d.get('inputs') or [''] * 9)[kt[2]]:
+                    obs.append(ok('CACHE-KEY', kinst, 'the cache map is keyed by the caller\'s path itself', n.get('sp', '')))
+                else:
+                    obs.append(bad('CACHE-KEY', kinst, 'the cache map key is derived from the path (%s), not the path itself' % P.show(kt, 0, 3)[:80], n.get('sp', ''),
+                                   'two different files can share one cache entry: the output depends on call order'))
         out = fn.d.get('output', '')
         if out.startswith('&') or 'MutexGuard' in out:
             obs.append(bad('CACHE-ACCESS', '%s/returns-owned' % short(fn.path), 'helper returns %s (a reference into the cache)' % out, fn.loc,
